@@ -169,7 +169,7 @@ func (h *Sources) Delete(sources ...string) {
 func (h *Sources) Walk(pos int) {
 	history := h.Current()
 
-	if history == nil || history.Len() == 0 {
+	if history == nil || history.Len() == 0 || pos == 0 {
 		return
 	}
 
@@ -240,6 +240,16 @@ func (h *Sources) Fetch(pos int) {
 		h.hint.Set(color.FgRed + "history error: " + err.Error())
 		return
 	}
+
+	// Save the current line buffer if we are leaving it.
+	if h.hpos == -1 {
+		h.skip = false
+		h.Save()
+		h.cpos = -1
+	}
+
+	// We are now on this history line.
+	h.hpos = history.Len() - pos
 
 	h.setLineCursorMatch(line)
 }
@@ -405,8 +415,7 @@ func (h *Sources) InsertMatch(line *core.Line, cur *core.Cursor, usePos, fwd, re
 	// (down to the current input line), reinstore the main line buffer.
 	if !found {
 		if fwd {
-			h.hpos = -1
-			h.Undo()
+			h.restoreLineBuffer()
 		}
 
 		return
